@@ -208,6 +208,7 @@ class ChainNode(Entity):
         seq = self._next_seq
 
         # Apply locally
+        self._key_seq[key] = seq
         yield from self._store.put(key, value)
 
         # Mark dirty for CRAQ
@@ -235,7 +236,7 @@ class ChainNode(Entity):
             # Clean up
             self._pending_writes.pop(seq, None)
             if self._craq_enabled:
-                self._dirty_keys.discard(key)
+                self._mark_committed(key, seq)
         else:
             # Single-node chain (HEAD is also TAIL)
             if self._craq_enabled:
@@ -261,13 +262,12 @@ class ChainNode(Entity):
             # Apply locally
             self._key_seq[key] = seq
             yield from self._store.put(key, value)
+            if self._craq_enabled:
+                self._dirty_keys.add(key)
         else:
             # Overtaken by a newer write to the same key: keep the newer value, but
             # still pay the write cost and pass the message on so the head gets its ack.
             yield self._store.write_latency
-
-        if self._craq_enabled:
-            self._dirty_keys.add(key)
 
         if self._role == ChainNodeRole.TAIL:
             # Send ack back to head
@@ -284,7 +284,7 @@ class ChainNode(Entity):
 
             # CRAQ: key is now clean, notify chain
             if self._craq_enabled:
-                self._dirty_keys.discard(key)
+                self._mark_committed(key, seq)
                 # Notify upstream nodes that key is committed
                 events = self._build_commit_notifications(key, seq)
                 if events:
@@ -317,6 +317,11 @@ class ChainNode(Entity):
         metadata = event.context.get("metadata", {})
         key = metadata.get("key")
         if key and self._craq_enabled:
+            self._mark_committed(key, metadata.get("seq", 0))
+
+    def _mark_committed(self, key: str, seq: int) -> None:
+        """CRAQ: the key is clean only once the newest write seen here is committed."""
+        if seq >= self._key_seq.get(key, 0):
             self._dirty_keys.discard(key)
 
     def _handle_read(
